@@ -17,6 +17,7 @@ CONSTANTS
   Dtypes = {"f", "c"}
   WildDtypes = {"f"}
   Ops = {"neg", "T", "scale", "div", "add", "sub", "submatrix", "pickle"}
+  OpForms = {"csr"}
   MaxSteps = 1
   MaxE = 2
   StrictOrder = TRUE
